@@ -380,8 +380,8 @@ def run(tier='quick', seed=0, only=None, verbose=False):
         stubs=['numpy library model; hist = uninterpreted functions; scipy.sparse.csr_matrix = tagging wrapper'],
         assumptions=['reals for floats', 'abs, sign: argument != 0 at the evaluation point', 'auto-07p DFDU/DFDP: see C18',
                      'counterexamples are replayed with central differences of the real vector field in float64'])
-    progs = fam_jac(seed, 8 if tier == 'quick' else 80)
-    dde = families.fam_dde(seed, n=8 if tier == 'quick' else 40)
+    progs = fam_jac(seed, 8 if tier == 'quick' else 200)
+    dde = families.fam_dde(seed, n=8 if tier == 'quick' else 100)
     jobs = []
     for k, s in progs:
         jobs.append(dict(key=f"{k}|euler", spec=s, solver='euler'))
